@@ -1,14 +1,16 @@
 #!/bin/sh
 # mutation_suite.sh [Cnn ...] — replay the stored white-box mutants (harness/mutants/<id>/*.diff) against the quick tier.
-# One scratch worktree of /repo HEAD per run (under /tmp, removed afterwards). Prints one line per mutant: killed / SURVIVED / no-apply.
+# MUT_EVERY=k replays every k-th mutant only.  One scratch worktree of /repo HEAD per run (under /tmp, removed afterwards). Prints one line per mutant: killed / SURVIVED / no-apply.
 cd "$(dirname "$0")/.."
 ids=${*:-$(ls harness/mutants 2>/dev/null)}
 wt=/tmp/mutsuite-$$
 git -C /repo worktree prune
 git -C /repo worktree add -q --detach $wt HEAD || exit 2
+every=${MUT_EVERY:-1}; n=0
 for id in $ids; do
   for m in harness/mutants/$id/*.diff; do
     [ -f "$m" ] || continue
+    n=$((n+1)); [ $((n % every)) -eq 0 ] || continue
     git -C $wt checkout -q -- . ; git -C $wt clean -fdq
     if ! git -C $wt apply "$PWD/$m" 2>/dev/null; then echo "$id $(basename $m) no-apply"; continue; fi
     VERIF_REPO=$wt ./check $id --tier quick >/dev/null 2>&1; rc=$?
